@@ -90,8 +90,8 @@ CHECKS = {
         engine="controlb",
         technique="TLA+ spec (ClientHistory.tla: call histories on fresh/used clients, seeded and process-global random streams, the caller's baseline frame and default-argument objects as state that outlives a call, national summaries with their own arguments, memo of digests) model-checked by TLC; every exported history executed on the real client (in-process and in new interpreters with different PYTHONHASHSEED) and validated by Trace_ClientHistory",
         design_ref="DESIGN.md §5 C12, docs/controlb.md",
-        text="TLC checks Functional (equal arguments => equal digest) over all histories of <=3 calls x 2 argument tuples x 3 estimators x same/fresh client x national summary (6k states; 171k in thorough); eight design switches (unseeded sigma = F2, unseeded split, unseeded bootstrap generator, model reuse, mutated defaults, set-order dependence, summary components kept on the model object, margin weights not rebuilt on a re-used caller frame = F17) each reproduce a counterexample; 192 (2,608) exported histories are executed on the real client with the global numpy/random state perturbed by entropy between calls, and re-executed in new interpreters with PYTHONHASHSEED 0/1/12345/random; bit-level digests of every returned table are merged into traces and validated by the memo of the trace spec.",
-        note="The harness never seeds anything itself; digests are dtype-aware float.hex hashes including column names and order.",
+        text="TLC checks Functional (equal arguments => equal digest) over all histories of <=3 calls x 2 argument tuples x 3 estimators x same/fresh client x national summary (6k states; 171k in thorough); ten design switches (unseeded sigma = F2, unseeded split, unseeded bootstrap generator, model reuse, mutated defaults, set-order dependence, summary components kept on the model object, margin weights not rebuilt on a re-used caller frame = F17, derived results columns written into the caller's feed frame, outlier models reading a column an earlier margin run left in the caller's baseline frame = open finding F19) each reproduce a counterexample; every history hands ONE baseline frame object and ONE feed frame object to all its calls; 192 (2,608) exported histories are executed on the real client with the global numpy/random state perturbed by entropy between calls, and re-executed in new interpreters with PYTHONHASHSEED 0/1/12345/random; bit-level digests of every returned table are merged into traces and validated by the memo of the trace spec.",
+        note="The harness never seeds anything itself; digests are dtype-aware float.hex hashes including column names and order. F19 (default outlier models on + baseline frame object shared with an earlier margin run) is an open known finding, reported as KNOWN-FINDING from a dedicated pair of histories.",
     ),
     "C13": dict(
         engine="controlb",
